@@ -8,23 +8,44 @@ import copy
 import json
 
 from .run import replay_ops, digest_of
+from .pool import forked
 
 
 def vclass(v):
     return (v['property'], v['clause'], v['culprit'])
 
 
+def _isolated_eval(args):
+    prop, ops, prelude = args
+    try:
+        w = replay_ops(prop, ops, prelude)
+    except Exception:
+        return None
+    if not w.violations:
+        return None
+    return (vclass(w.violations[0]), sum(1 for e in w.log if e[1] == 0))
+
+
 class Minimiser(object):
-    def __init__(self, prop, cls, budget=600):
+    def __init__(self, prop, cls, budget=600, prelude=()):
         self.prop = prop
         self.cls = cls
         self.budget = budget
         self.execs = 0
+        self.prelude = [list(p) for p in prelude]
 
-    def fails(self, ops):
+    def fails(self, ops, prelude=None):
+        """Truthy iff the program still fails with the same class.  With a prelude every
+        evaluation runs in its own forked process (the prelude exists because state leaks)."""
         if self.execs >= self.budget:
             return None
         self.execs += 1
+        pre = self.prelude if prelude is None else prelude
+        if pre:
+            r = forked(_isolated_eval, [(self.prop, ops, pre)], 1, 600)[0]
+            if r is not None and r[0] == self.cls:
+                return _Shim(r[1])
+            return None
         try:
             w = replay_ops(self.prop, ops)
         except Exception:
@@ -32,6 +53,37 @@ class Minimiser(object):
         if w.violations and vclass(w.violations[0]) == self.cls:
             return w
         return None
+
+    def shrink_prelude(self, ops):
+        """Drop whole preceding runs, then ops inside the remaining ones."""
+        pre = self.prelude
+        n = 2
+        while len(pre) >= 1 and self.execs < self.budget:
+            chunk = max(1, len(pre) // n)
+            reduced = False
+            for start in range(0, len(pre), chunk):
+                cand = pre[:start] + pre[start + chunk:]
+                if self.fails(ops, cand) is not None:
+                    pre = cand
+                    n = max(n - 1, 2)
+                    reduced = True
+                    break
+            if not reduced:
+                if chunk == 1:
+                    break
+                n = min(len(pre), n * 2)
+        for k in range(len(pre)):
+            run = pre[k]
+            j = 0
+            while j < len(run) and self.execs < self.budget:
+                cand = pre[:k] + [run[:j] + run[j + 1:]] + pre[k + 1:]
+                if self.fails(ops, cand) is not None:
+                    run = run[:j] + run[j + 1:]
+                    pre = cand
+                else:
+                    j += 1
+        self.prelude = [p for p in pre if p]
+        return self.prelude
 
     def truncate(self, ops):
         """Drop everything after the op during which the violation was raised."""
@@ -164,6 +216,12 @@ class Minimiser(object):
 _DEL = object()
 
 
+class _Shim(object):
+    """What truncate() needs from a world when the evaluation ran in another process."""
+    def __init__(self, n_top):
+        self.log = [(0, 0)] * n_top
+
+
 def minimise(prop, ops, violation, budget=600):
     m = Minimiser(prop, vclass(violation), budget)
     small = m.run(ops)
@@ -174,6 +232,25 @@ def minimise(prop, ops, violation, budget=600):
         w = replay_ops(prop, small)
     v = w.violations[0] if w.violations else None
     return small, v, digest_of(w), m.execs
+
+
+def _min_child(args):
+    prop, ops, violation, budget = args
+    return minimise(prop, ops, violation, budget)
+
+
+def minimise_isolated(prop, ops, violation, budget=600):
+    """minimise() in a forked child, so that the parent never executes library code."""
+    return forked(_min_child, [(prop, ops, violation, budget)], 1, 3600)[0]
+
+
+def minimise_with_prelude(prop, ops, prelude, violation, budget=400):
+    m = Minimiser(prop, vclass(violation), budget, prelude)
+    pre = m.shrink_prelude(ops)
+    small = m.ddmin(m.truncate(list(ops)))
+    if m.fails(small, pre) is None:
+        small = list(ops)
+    return small, pre, m.execs
 
 
 def jsonable(x):
